@@ -265,6 +265,19 @@ def chunk_stamps(chunk, acc):
             acc.case((name, k), outcome=str(u))
             if k not in tbl and str(u) != "Unknown":
                 acc.fail("C18/version/neighbour-not-unknown", {"kind": "stamp", "table": name, "key": k}, "Unknown", repr(u))
+    # the two tables are independent: the same integer looked up in both, in both orders, gets each table's answer
+    et, mt = version.PE_EXPORT_STAMP_TO_VERSION, version.MAX_ENUM_TO_VERSION
+    ints = sorted(set(mt) | {0, 1, 19, 21, 57, 60, 75, 77, 79, 100}) + sorted(et)[:6]
+    for n, i in enumerate(ints):
+        order = (("maxenum", version.BeaconVersion.from_max_setting_enum, mt), ("export", version.BeaconVersion.from_pe_export_stamp, et))
+        if n % 2:
+            order = order[::-1]
+        for name, ctor, tbl in order + order:
+            acc.transitions += 1
+            v = call(ctor, i)
+            acc.case(("cross", i, name, n % 2), outcome=str(v))
+            if str(v) != tbl.get(i, "Unknown") or (i not in tbl and getattr(v, "tuple", 1) is not None):
+                acc.fail("C18/version/tables-not-independent", {"kind": "stamp", "table": name, "key": i}, tbl.get(i, "Unknown"), repr(v))
     acc.sample({"export_table_keys": len(version.PE_EXPORT_STAMP_TO_VERSION), "maxenum_table_keys": len(version.MAX_ENUM_TO_VERSION)})
 
 
@@ -325,6 +338,17 @@ def chunk_precedence(chunk, acc):
                 if obs != want:
                     bad = [k for k in want if want[k] != obs[k]]
                     acc.fail("C18/version/precedence/" + "+".join(bad), {"kind": "precedence", "arch": arch, "export": ex, "max_index": maxidx}, want, obs)
+    # a stomped export stamp that collides with a setting index, then a stage without export directory (same process)
+    for small in (59, 78):
+        s1 = RC.http_settings(extra=[(small, 0, b"")])
+        blob1 = build(base_params(export=small), data=RC.obfuscate(RC.block(s1, pad=4096), 0x2E))
+        blob2 = build(base_params(export=None), data=RC.obfuscate(RC.block(s1, pad=4096), 0x2E))
+        for label, blob, exp in (("stomped", blob1, et.get(small, "Unknown")), ("no-export", blob2, mt.get(small, "Unknown")), ("stomped-again", blob1, et.get(small, "Unknown"))):
+            bc = call(beacon.BeaconConfig.from_bytes, blob)
+            acc.transitions += 1
+            acc.case(("collide", small, label), outcome=str(getattr(bc, "version", bc)))
+            if isinstance(bc, str) or str(bc.version) != exp:
+                acc.fail("C18/version/precedence/stamp-collides-with-index", {"kind": "precedence", "arch": "x86", "export": small, "max_index": small}, exp, bc if isinstance(bc, str) else str(bc.version))
     # a bare block (no image): version comes from the highest index
     for maxidx in (20, 58, 59, 75, 78, 79):
         bc = beacon.BeaconConfig(RC.block([(1, 1, b"\x00\x00"), (maxidx, 0, b"")]))
